@@ -508,7 +508,12 @@ where
             "inject" => {
                 let from: Addr = o[1].parse().unwrap();
                 let to: Addr = o[2].parse().unwrap();
-                if let Some(m) = build_injected(&o[3..]) {
+                if let Some(mut m) = build_injected(&o[3..]) {
+                    // magic 0 = "the magic number the sender's endpoint really uses" (a malformed
+                    // packet from the genuine peer rather than from another session)
+                    if m.magic == 0 {
+                        m.magic = net.borrow().magic_seen.get(&(from, to)).copied().unwrap_or(1);
+                    }
                     net.borrow_mut().inject(from, to, ggrs::verif::msg::build(&m));
                 }
             }
